@@ -1,4 +1,5 @@
-"""C09: RenderTree rows and prefixes proved in the text world; text layout of str()/by_attr() and the reprs by the bounded stand-in."""
+"""C09: RenderTree rows and prefixes, and the text layout of str()/by_attr()/_format_row_any, proved in the text world; the reprs by
+the bounded stand-in."""
 import ast
 import json
 
@@ -13,6 +14,10 @@ TRUSTED = seq_props.TRUSTED[:3] + [
     "childiter is a deterministic function from the tuple of children to a finite sequence of nodes",
     "' ' * n is SPACES(n); ''.join over a comprehension of two alternatives is JOINSEG (defining equation in contracts/render.py)",
     "the style object handed to __item is the renderer's own style (its three strings are the fixed symbols of the proof)",
+    "text layout: str.splitlines, repr(node), str(value) and sep.join(lines) are uninterpreted functions (what the lines of a text ARE "
+    "is CPython's business; the contract fixes which text is split, that an empty result is replaced by one empty line, which prefix "
+    "goes before which line, and in which order everything is joined); a list/tuple value is the sequence of its elements, each "
+    "printed through str(); the attribute selector of by_attr is either callable or an attribute name (getattr with default '')",
 ]
 LEMMAS = [
     {"id": "shape-of-LP", "statement": "_is_last's specification function has length n and element i = (s[i], i is the last index)",
@@ -84,9 +89,9 @@ def bounded_part(tier):
     def f(res):
         spec = {"nodes": 4 if tier == "quick" else 5}
         out = driver.harness_json("render.py", "search", spec, timeout=6000)
-        res.bounded.append({"what": "BOUNDED stand-in (never counted as proved): str(RenderTree) and by_attr() line layout (first line after "
-                            "pre, further lines after fill, empty value -> one line; str/list/tuple/callable selectors), _format_row_any, "
-                            "Node/AnyNode reprs (_repr); and the closed-form reading of the rows (bridge L8)",
+        res.bounded.append({"what": "BOUNDED stand-in (never counted as proved): Node/AnyNode/SymlinkNode reprs (_repr); CPython's "
+                            "splitlines/join behind the proved line layout of str(RenderTree) / by_attr(); and the closed-form reading "
+                            "of the rows on the real code (L8 is proved in Lean for the spec function)",
                             "bound": json.dumps(spec) + " - all ordered trees up to `nodes` nodes x 2 start nodes x 5 styles x 4 childiter "
                             "functions x maxlevel None,0..n+1 x single/multi-line names",
                             "evaluations": out.get("evaluations", 0), "distinct_nontrivial": out.get("nontrivial", 0),
